@@ -13,3 +13,32 @@ def decodeRunes (s : String) : Option (List Char) :=
 def showNatList (l : List Nat) : String := "[" ++ ",".intercalate (l.map toString) ++ "]"
 
 end Driver
+
+namespace Driver
+
+def hexVal (c : Char) : Option Nat :=
+  if '0' ≤ c && c ≤ '9' then some (c.toNat - '0'.toNat)
+  else if 'a' ≤ c && c ≤ 'f' then some (c.toNat - 'a'.toNat + 10)
+  else none
+
+def unhexBytes : List Char → Option (List UInt8)
+  | [] => some []
+  | a :: b :: t => do
+    let x ← hexVal a; let y ← hexVal b; let r ← unhexBytes t
+    pure (UInt8.ofNat (x * 16 + y) :: r)
+  | _ => none
+
+/-- "-" = empty string, else hex of the UTF-8 bytes -/
+def unhexStr (s : String) : Option String :=
+  if s = "-" then some "" else
+  match unhexBytes s.toList with
+  | some bs => String.fromUTF8? (ByteArray.mk bs.toArray)
+  | none => none
+
+def hexDigit (n : Nat) : Char := if n < 10 then Char.ofNat (48 + n) else Char.ofNat (87 + n)
+
+def hexStr (s : String) : String :=
+  if s.isEmpty then "-" else
+  String.ofList (s.toUTF8.toList.flatMap (fun b => [hexDigit (b.toNat / 16), hexDigit (b.toNat % 16)]))
+
+end Driver
